@@ -457,6 +457,9 @@ def check_arguments(ctx, facts):
 
 
 def check(ctx):
+    from ..patsplit import check_pattern_split
+    R0 = Numeric(ctx)
+    check_pattern_split(ctx, R0.facts)          # (before the Runner: every Numeric resets the global value tables)
     R = Runner(ctx)
     facts = R.N.facts
     g = shape.call_graph(facts)
